@@ -5,7 +5,8 @@ import ast
 
 from sa.core import Ob
 from sa.pm import AnalysisError, norm, body_nodes
-from sa import gi, df, ru
+from sa import gi, df, ru, sym
+from sa.pm import Undecided
 from sa.gi import GuardWalker
 from sa.cfg import stmt_paths, struct_dominates
 
@@ -32,22 +33,81 @@ def _native_methods(ctx, rel):
     return m, out
 
 
+_REF = None
+
+
+def _ref():
+    global _REF
+    if _REF is None:
+        import os
+        _REF = ast.parse(open(os.path.join(os.path.dirname(os.path.dirname(os.path.abspath(__file__))), "spec", "ref_curve.py")).read())
+    return _REF
+
+
+INTS = lambda t: t in ("x0", "y0", "x1", "y1", "x3", "y3", "p", "slope", "lam", "e", "e3", "i", "a", "m", "c", "d", "q", "uc", "vc", "ud", "vd", "x", "y", "alpha", "y0", "order", "mask", "bit", "result_int", "numerator", "denominator") \
+    or t.startswith(("self._p", "self._a", "self._b", "self._order", "self.inverse_mod(", "len(", "pow(", "self.modular_sqrt(", "_leftmost_bit(", "p0[", "p1[", "self[", "self._mod_sqrt_power", "self._blinding_factor"))
+
+
+def _refcheck(ctx, rel, dotted, refname, key, ints=None):
+    fi = ctx.p.functions.get(ctx.p.module(rel).name + "." + dotted) or ctx.func(rel, dotted)
+    return sym.against_reference(ctx, fi, _ref(), refname, key, ints or INTS)
+
+
+def _pv(e, params, carried, ok_calls, seen=frozenset(), depth=0):
+    """is the (substituted) expression a point that went through the on-curve-checking constructor, a parameter or infinity?"""
+    if e is None or depth > 14:
+        return False
+    if isinstance(e, ast.Name):
+        if e.id in params or e.id in seen:
+            return True          # coinductive: a loop-carried name is fine if its initial value and every update are
+        vals = carried.get(e.id)
+        if not vals:
+            return e.id in ("infinity",)
+        return all(_pv(v, params, carried, ok_calls, seen | {e.id}, depth + 1) for v in vals)
+    if isinstance(e, ast.Attribute):
+        return norm(e) in ("self._infinity", "self._minus_blinding_factor_g")
+    if isinstance(e, ast.Call):
+        fn = df.dotted(e.func) or ""
+        if fn in ok_calls:
+            return True
+        if fn == "cast" and len(e.args) == 2:
+            return _pv(e.args[1], params, carried, ok_calls, seen, depth + 1)
+        if fn in ("list", "tuple") and len(e.args) == 1:
+            return _pv(e.args[0], params, carried, ok_calls, seen, depth + 1)
+        return False
+    if isinstance(e, ast.BinOp) and isinstance(e.op, (ast.Add, ast.Sub, ast.Mult)):
+        return _pv(e.left, params, carried, ok_calls, seen, depth + 1) or _pv(e.right, params, carried, ok_calls, seen, depth + 1)
+    if isinstance(e, ast.UnaryOp) and isinstance(e.op, ast.USub):
+        return _pv(e.operand, params, carried, ok_calls, seen, depth + 1)
+    if isinstance(e, (ast.Tuple, ast.List)):
+        return all(_pv(x, params, carried, ok_calls, seen, depth + 1) for x in e.elts)
+    if isinstance(e, ast.ListComp):
+        tg = {n.id for g in e.generators for n in ast.walk(g.target) if isinstance(n, ast.Name)}
+        return _pv(e.elt, params | tg, carried, ok_calls, seen, depth + 1)
+    if isinstance(e, ast.Subscript):
+        return _pv(e.value, params, carried, ok_calls, seen, depth + 1)
+    if isinstance(e, ast.IfExp):
+        return _pv(e.body, params, carried, ok_calls, seen, depth + 1) and _pv(e.orelse, params, carried, ok_calls, seen, depth + 1)
+    return False
+
+
+def _carried(w):
+    out = {}
+    for lid, states in list(w.loop_out.items()) + list(w.loop_in.items()):
+        for st in states:
+            for k, v in st.env.items():
+                if isinstance(k, str) and not k.startswith("\0") and not (isinstance(v, ast.Name) and v.id == k):
+                    out.setdefault(k, []).append(v)
+    return out
+
+
 # ------------------------------------------------------------------ C02.1
 def c02_1(ctx):
-    init = ctx.func(POINT, "Point.__init__")
-    body = [norm(s) for s in init.node.body]
-    ctx.check("self.check_on_curve()" in body and not any(isinstance(s, (ast.If, ast.Try)) for s in init.node.body), "constructor-checks-curve", ctx.where(init), "Point.__init__ does not call check_on_curve unconditionally")
-    ck = ctx.func(POINT, "Point.check_on_curve")
-    w = GuardWalker(ru.opaque)
-    ex = w.run(ck.node.body)
-    rs = [e for e in ex if ru.is_raise_of("NoSuchPointError")(e)]
-    ctx.check(len(rs) == 1 and gi.f_equiv(rs[0].cond, ("not", ("op", "self._curve.contains_point(*self)"))), "off-curve-raises", ctx.where(ck), "check_on_curve does not raise NoSuchPointError exactly when contains_point is false")
-    cp = ctx.func(CURVE, "Curve.contains_point")
-    rets = [r for r in df.returns_of(cp.node) if not (isinstance(r.value, ast.Constant))]
-    ok = len(rets) == 1 and norm(rets[0].value) in ("(y * y - (x * x * x + self._a * x + self._b)) % self._p == 0", "(y * y - (x ** 3 + self._a * x + self._b)) % self._p == 0")
-    ctx.check(ok, "curve-equation", ctx.where(cp), "contains_point is `%s`, expected y^2 - (x^3 + a*x + b) == 0 (mod p)" % (norm(rets[0].value) if rets else None), sample={"equation": norm(rets[0].value) if rets else None})
-    ctx.check("if x is None and y is None:" in norm(cp.node), "infinity-on-curve", ctx.where(cp), "contains_point does not accept the point at infinity")
-    nw = ctx.func(POINT, "Point.__new__")
+    _refcheck(ctx, POINT, "Point.__init__", "pt_init", "constructor-checks-curve")
+    _refcheck(ctx, POINT, "Point.check_on_curve", "pt_check_on_curve", "off-curve-raises")
+    _refcheck(ctx, CURVE, "Curve.contains_point", "cv_contains_point", "curve-equation")
+    _refcheck(ctx, POINT, "Point.__new__", "pt_new", "point-new")
+    _refcheck(ctx, CURVE, "Curve.Point", "cv_point", "curve-point-factory")
     # every value returned by the point-producing functions is a parameter, infinity, a constructor call or the result of another such function
     producers = [(CURVE, "Curve.add"), (CURVE, "Curve.multiply"), (GEN, "Generator.raw_mul"), (GEN, "Generator.__mul__"), (GEN, "Generator.__rmul__"), (POINT, "Point.__neg__"),
                  (POINT, "Point.__add__"), (POINT, "Point.__sub__"), (POINT, "Point.__mul__"), (POINT, "Point.__rmul__"), (GEN, "Generator.points_for_x"), (CURVE, "Curve.Point")]
@@ -63,158 +123,93 @@ def c02_1(ctx):
         name = fi.qualname if fi is not None else "%s.Optimizations.%s" % (nat[0].name, nat[1].name)
         where = ctx.where(fi) if fi is not None else "%s:%d" % (nat[0].relpath, nat[1].lineno)
         params = {a.arg for a in node.args.args}
-        defs = df.assignments(node)
-        for r in [n for n in body_nodes(node) if isinstance(n, ast.Return)]:
-            if nat is not None and nat[0].relpath == SECP and isinstance(r.value, ast.Constant) and r.value.value is False and norm(ru.enclosing_test(node, r) or ast.Constant(0)) == "not r":
+        w = sym.SymWalker(node, sym.Canon(None, None), keep=sym.mutated_locals(node) - params)
+        w.run()
+        carried = _carried(w)
+        for e in w.exits:
+            if e.kind != "return" or e.value is None:
+                continue
+            if nat is not None and nat[0].relpath == SECP and isinstance(e.value, ast.Constant) and e.value.value is False:
                 ctx.note("tabulated: secp256k1 multiply returns False after a failed pubkey_parse of an already validated Point (unreachable)")
                 continue
-            ctx.check(_point_valued(r.value, params, defs, ok_calls, 0), "returns-checked-point:%s:%s" % (name.split(".")[-2] + "." + name.split(".")[-1], norm(r.value)[:40]), where,
+            ctx.check(_pv(e.value, params, carried, ok_calls), "returns-checked-point:%s" % (name.split(".")[-2] + "." + name.split(".")[-1]), where,
                       "%s returns `%s`, which is neither a parameter, infinity, a Point constructor call (on-curve checked) nor the result of another group operation: results may lie off the curve"
-                      % (name, norm(r.value)[:80]), what="%s:%s" % (name, norm(r.value)[:50]), sample={"function": name, "returns": norm(r.value)[:80]} if "add" in name else None)
-    t = norm(nw.node)
-    ctx.check("return tuple.__new__(cls, (x, y))" in t, "point-new", ctx.where(nw), "Point.__new__ is not a plain 2-tuple")
-    cpt = ctx.func(CURVE, "Curve.Point")
-    ctx.check("return Point(x, y, self)" in norm(cpt.node), "curve-point-factory", ctx.where(cpt), "Curve.Point does not construct a checked Point on this curve")
-
-
-def _point_valued(e, params, defs, ok_calls, depth, seen=frozenset()):
-    if depth > 12 or e is None:
-        return False
-    if isinstance(e, ast.Name):
-        if e.id in params or e.id in seen:
-            return True      # coinductive: a name defined in terms of itself is fine if every other definition is
-        seen = seen | {e.id}
-        ds = defs.get(e.id, [])
-        if not ds:
-            return e.id in ("infinity",)
-        for v, st in ds:
-            if isinstance(v, ast.AST):
-                if not _point_valued(v, params, defs, ok_calls, depth + 1, seen):
-                    return False
-            elif isinstance(v, tuple) and v[0] in ("unpack", "loop") and isinstance(v[1], ast.AST):
-                if not _point_valued(v[1], params, defs, ok_calls, depth + 1, seen):
-                    return False
-            elif isinstance(v, tuple) and v[0] == "aug":
-                if not _point_valued(v[2], params, defs, ok_calls, depth + 1, seen):
-                    return False
-            else:
-                return False
-        return True
-    if isinstance(e, ast.Attribute):
-        return norm(e) in ("self._infinity", "self._minus_blinding_factor_g")
-    if isinstance(e, ast.Call):
-        fn = df.dotted(e.func) or ""
-        if fn in ok_calls:
-            return True
-        if fn in ("cast",) and len(e.args) == 2:
-            return _point_valued(e.args[1], params, defs, ok_calls, depth + 1, seen)
-        return False
-    if isinstance(e, ast.BinOp) and isinstance(e.op, (ast.Add, ast.Sub, ast.Mult)):
-        return _point_valued(e.left, params, defs, ok_calls, depth + 1, seen) or _point_valued(e.right, params, defs, ok_calls, depth + 1, seen)
-    if isinstance(e, ast.UnaryOp) and isinstance(e.op, ast.USub):
-        return _point_valued(e.operand, params, defs, ok_calls, depth + 1, seen)
-    if isinstance(e, (ast.Tuple, ast.List)):
-        return all(_point_valued(x, params, defs, ok_calls, depth + 1, seen) for x in e.elts)
-    if isinstance(e, ast.ListComp):
-        return _point_valued(e.elt, params | {n.id for g in e.generators for n in ast.walk(g.target) if isinstance(n, ast.Name)}, defs, ok_calls, depth + 1)
-    if isinstance(e, ast.Subscript):
-        return _point_valued(e.value, params, defs, ok_calls, depth + 1, seen)
-    if isinstance(e, ast.Constant):
-        return False
-    return False
+                      % (name, norm(e.value)[:80]), what="%s:%s" % (name, norm(e.value)[:50]), sample={"function": name, "returns": norm(e.value)[:80]} if "add" in name else None)
 
 
 # ------------------------------------------------------------------ C02.2
 def c02_2(ctx):
     f = ctx.func(CURVE, "Curve.add")
-    coords = {"x0", "y0", "x1", "y1"}
-    n = 0
-    for c in [x for x in body_nodes(f.node) if isinstance(x, ast.Compare)]:
-        names = df.names_in(c)
-        if not (names & coords):
-            continue
-        if any(isinstance(k, ast.Constant) and k.value is None for k in c.comparators):
-            continue
-        n += 1
-        ok = len(c.ops) == 1 and isinstance(c.ops[0], ast.Eq) and df.const_int(c.comparators[0]) == 0 and isinstance(c.left, ast.BinOp) and isinstance(c.left.op, ast.Mod) and norm(c.left.right) in ("p", "self._p")
-        ctx.check(ok, "modular-coordinate-test:%s" % norm(c), ctx.where(f, c),
-                  "Curve.add compares coordinates with `%s`; points may carry unreduced coordinates (the constructor accepts y and y + p alike), so P = -Q / P = Q must be decided modulo p: (x0 - x1) %% p == 0 and (y0 + y1) %% p == 0" % norm(c),
-                  what="cmp:%s" % norm(c), sample={"comparison": norm(c)})
-    ctx.check(n == 2, "two-case-tests", ctx.where(f), "Curve.add has %d coordinate comparisons, expected the x-equality and the y-opposite tests" % n)
-    w = GuardWalker(ru.opaque)
-    ex = w.run(f.node.body)
-    inf = [e for e in ex if e.kind == "return" and norm(e.value) in ("infinity", "self._infinity")]
-    ok = len(inf) == 1 and {"(x0 - x1) % p == 0", "(y0 + y1) % p == 0"} <= set(gi.f_opaques(inf[0].cond)) and not _sat(gi.f_and(inf[0].cond, ("not", ("op", "(y0 + y1) % p == 0"))))
-    ctx.check(ok, "inverse-gives-infinity", ctx.where(f), "P + (-P) does not return infinity exactly when x0 = x1 and y0 = -y1 (mod p)")
-    sl = {}
-    for st, r in w.visits:
-        if isinstance(st, ast.Assign) and norm(st.targets[0]) == "slope":
-            sl[norm(st.value)] = r
-    dbl = "(3 * x0 * x0 + self._a) * self.inverse_mod(2 * y0, p) % p"
-    chd = "(y1 - y0) * self.inverse_mod(x1 - x0, p) % p"
-    ctx.check(set(sl) == {dbl, chd}, "slopes", ctx.where(f), "the tangent / chord slopes are %s" % sorted(sl), sample={"slopes": sorted(sl)})
-    if set(sl) == {dbl, chd}:
-        ctx.check(not _sat(gi.f_and(sl[dbl], ("not", ("op", "(x0 - x1) % p == 0")))) and not _sat(gi.f_and(sl[chd], ("op", "(x0 - x1) % p == 0"))), "slope-cases", ctx.where(f), "the tangent slope is not used exactly for P = Q and the chord slope for x0 != x1")
-    t = norm(f.node)
-    ctx.check("x3 = (slope * slope - x0 - x1) % p" in t and "y3 = (slope * (x0 - x3) - y0) % p" in t and "return self.Point(x3, y3)" in t, "sum-coordinates", ctx.where(f), "the sum is not (s^2 - x0 - x1, s(x0 - x3) - y0) mod p")
+    _refcheck(ctx, CURVE, "Curve.add", "cv_add", "group-law")
+    # P = Q / P = -Q are decided modulo p: coordinates may be unreduced
+    w = sym.walk(ctx, f, int_names=INTS)
     p0, p1 = f.params()[1:3]
-    ids = [e for e in ex if e.kind == "return" and norm(e.value) in (p0, p1)]
-    ok = len(ids) == 2 and any(norm(e.value) == p1 and gi.f_equiv(e.cond, ("op", "%s == infinity" % p0)) for e in ids) and any(norm(e.value) == p0 and "%s == infinity" % p1 in gi.f_opaques(e.cond) for e in ids)
-    ctx.check(ok, "identity-cases", ctx.where(f), "infinity is not handled as the identity before the coordinates are unpacked")
-    im = ctx.func(CURVE, "Curve.inverse_mod")
-    t = norm(im.node)
-    ctx.check("if a < 0 or m <= a:" in t and "a = a % m" in t and "q, c, d = divmod(d, c) + (c,)" in t and "uc, vc, ud, vd = (ud - q * uc, vd - q * vc, uc, vc)" in t and "assert d == 1" in t and "return ud + m" in t, "inverse-mod", ctx.where(im),
-              "inverse_mod is not the extended Euclid inverse reduced into (0, m)")
+    atoms = set()
+    for e in w.exits:
+        atoms |= set(gi.f_opaques(e.cond)) if e.cond not in (True, False) else set()
+    coord = [a for a in atoms if ("%s[" % p0 in a or "%s[" % p1 in a) and " is " not in a and "infinity" not in a]
+    for a in coord:
+        ctx.check("% self._p" in a, "modular-coordinate-test:%s" % a[:40], ctx.where(f),
+                  "Curve.add compares coordinates with `%s`; points may carry unreduced coordinates (the constructor accepts y and y + p alike), so P = -Q / P = Q must be decided modulo p" % a, what="cmp:%s" % a, sample={"comparison": a})
+    ctx.check(len(coord) >= 2, "two-case-tests", ctx.where(f), "Curve.add has %d coordinate comparisons, expected the x-equality and the y-opposite tests" % len(coord))
+    _refcheck(ctx, CURVE, "Curve.inverse_mod", "cv_inverse_mod", "inverse-mod")
 
 
 # ------------------------------------------------------------------ C02.3
 def c02_3(ctx):
     impls = []
     f = ctx.func(CURVE, "Curve.multiply")
-    impls.append(("Curve.multiply", f.node, ctx.where(f), "self._order", f.params()[1], f.params()[2]))
+    impls.append(("Curve.multiply", f.node, ctx.where(f), f.params()[1], f.params()[2]))
     for rel in (OSSL, SECP):
         m, meths = _native_methods(ctx, rel)
         if "multiply" in meths:
             nd = meths["multiply"]
             a = [x.arg for x in nd.args.args]
-            impls.append(("%s.Optimizations.multiply" % m.name.split(".")[-1], nd, "%s:%d" % (m.relpath, nd.lineno), None, a[1], a[2]))
+            impls.append(("%s.Optimizations.multiply" % m.name.split(".")[-1], nd, "%s:%d" % (m.relpath, nd.lineno), a[1], a[2]))
     g = ctx.func(GEN, "Generator.raw_mul")
-    for name, node, where, order_t, pname, ename in impls + [("Generator.raw_mul", g.node, ctx.where(g), "self._order", None, g.params()[1])]:
-        w = GuardWalker(ru.opaque)
-        w.run(node.body)
-        red = [(st, r) for st, r in w.visits if isinstance(st, ast.AugAssign) and norm(st.target) == ename and isinstance(st.op, ast.Mod)]
-        ok = len(red) == 1 and norm(red[0][0].value) in ("self._order", "self.order()")
+    for name, node, where, pname, ename in impls + [("Generator.raw_mul", g.node, ctx.where(g), None, g.params()[1])]:
+        params = {a.arg for a in node.args.args}
+        w = sym.SymWalker(node, sym.Canon(None, lambda t: t == ename), keep=sym.mutated_locals(node) - params)
+        w.run()
+        red = [e for e in w.effects if e.kind == "aug" and norm(e.target) == ename and isinstance(e.op, ast.Mod)]
+        red += [e for st, r in w.visits for e in [None] if False]
+        vals = {norm(e.value) for e in red}
+        ok = bool(red) and vals <= {"self._order", "self.order()"}
         if ok:
-            r = red[0][1]
-            ok = r is True or set(gi.f_opaques(r)) <= {"self._order", "self._order is not None"}
+            r = gi.f_or(*[e.reach for e in red])
+            ok = r is True or set(gi.f_opaques(r)) <= {"truthy(self._order)", "self._order is None", "truthy(self.order())"}
+        if not red:
+            # e = e % order spelled as a plain assignment
+            asg = [st for st, r in w.visits if isinstance(st, ast.Assign) and norm(st.targets[0]) == ename and isinstance(st.value, ast.BinOp) and isinstance(st.value.op, ast.Mod)]
+            ok = bool(asg) and all(norm(st.value.left) == ename for st in asg)
         ctx.check(ok, "scalar-reduced-unconditionally:%s" % name, where,
-                  "%s reduces the scalar by %s under condition %s; every scalar (negative, >= order, >= 2*order) must be reduced modulo the group order before it is used" % (name, [norm(s) for s, r in red], [repr(r)[:80] for s, r in red]),
-                  sample={"function": name, "reduction": [norm(s) for s, r in red], "condition": [repr(r)[:80] for s, r in red]})
+                  "%s reduces the scalar by %s under condition %s; every scalar (negative, >= order, >= 2*order) must be reduced modulo the group order before it is used" % (name, sorted(vals), [repr(e.reach)[:80] for e in red]),
+                  sample={"function": name, "reduction": sorted(vals)})
         if pname is None:
             continue
-        paths = stmt_paths(node)
-        early = [n for n in body_nodes(node) if isinstance(n, ast.If) and "%s == 0" % ename in norm(n.test) and any(isinstance(s, ast.Return) and norm(s.value) == "self._infinity" for s in n.body)]
-        ok = len(early) == 1 and len(red) == 1
-        if ok:
-            anchor = red[0][0]
-            holder = [n for n in node.body if any(x is anchor for x in ast.walk(n))][0]
-            ok = struct_dominates(paths, holder, early[0]) and ("%s == self._infinity" % pname in norm(early[0].test))
+        # the zero / infinity shortcut looks at the REDUCED scalar
+        infs = [e for e in w.exits if e.kind == "return" and e.value is not None and norm(e.value) in ("self._infinity", "self.infinity()")]
+        zero_atoms = []
+        ok = bool(infs)
+        seen_reduced = False
+        for e in infs:
+            ops = gi.f_opaques(e.cond) if e.cond not in (True, False) else []
+            for o in ops:
+                if o.startswith("0 == %s" % ename) and ("% self._order" in o or "% self.order()" in o):
+                    seen_reduced = True
+                    zero_atoms.append(o)
+                elif o == "0 == %s" % ename:
+                    zero_atoms.append(o)
+                    # the unreduced scalar may be tested only where there is no order to reduce by
+                    ok = ok and sym.matters_only_when(e.cond, o, ("not", ("op", "truthy(self._order)")))
+        ok = ok and seen_reduced
         ctx.check(ok, "zero-test-after-reduction:%s" % name, where,
-                  "%s tests `e == 0 or p == infinity` before the scalar has been reduced modulo the order: multiples of the order (n, -n, 2n) are not recognised as zero and reach the coordinate arithmetic" % name,
-                  sample={"function": name})
-        # coordinates of p used only after the infinity test
-        uses = [n for n in body_nodes(node) if isinstance(n, ast.Subscript) and norm(n.value) == pname]
-        if uses and early:
-            first_use = min(u.lineno for u in uses)
-            ctx.check(first_use > early[0].lineno, "coordinates-after-infinity-test:%s" % name, where, "%s reads the coordinates of p before testing for infinity" % name)
-    t = norm(f.node)
-    ctx.check("e3 = 3 * e" in t and "i = _leftmost_bit(e3) >> 1" in t and "result += result" in t and "v = [result, result + p]" in t and "v = [result - p, result]" in t and "result = v[0 if e & i else 1]" in t and "while i > 1:" in t, "ladder-shape", ctx.where(f),
-              "Curve.multiply is not the (e, 3e) signed-digit double-and-add ladder")
-    t = norm(g.node)
-    ctx.check("P = self._infinity" in t and "for bit in range(256):" in t and "a = [P, P + self._powers[bit]]" in t and "P = a[e & 1]" in t and "e >>= 1" in t, "fixed-base-shape", ctx.where(g), "Generator.raw_mul is not the 256-entry fixed-base table walk")
-    gi_ = ctx.func(GEN, "Generator.__init__")
-    t = norm(gi_.node)
-    ctx.check("for _ in range(256):" in t and "self._powers.append(Gp)" in t and "Gp += Gp" in t, "power-table", ctx.where(gi_), "the table of 2^i * G is not built by 256 doublings")
+                  "%s tests `%s` before the scalar has been reduced modulo the order: multiples of the order (n, -n, 2n) are not recognised as zero and reach the coordinate arithmetic" % (name, zero_atoms or "no zero test"),
+                  sample={"function": name, "zero_test": zero_atoms})
+    _refcheck(ctx, CURVE, "Curve.multiply", "cv_multiply", "ladder-shape")
+    _refcheck(ctx, CURVE, "_leftmost_bit", "cv_leftmost_bit", "leftmost-bit")
+    _refcheck(ctx, GEN, "Generator.raw_mul", "gn_raw_mul", "fixed-base-shape")
+    _refcheck(ctx, GEN, "Generator.__init__", "gn_init", "power-table")
 
 
 # ------------------------------------------------------------------ C02.4
@@ -270,59 +265,56 @@ def c02_4(ctx):
     stores = [(m.name, norm(st)) for m in ctx.p.cls(GEN, "Generator").methods.values() if m.name != "__init__" for st in body_nodes(m.node)
               if isinstance(st, (ast.Assign, ast.AugAssign)) and "_blinding_factor" in norm(st.targets[0] if isinstance(st, ast.Assign) else st.target)]
     ctx.check(not stores, "blinding-immutable", ctx.where(init), "the blinding factor is reassigned outside __init__: %s" % stores)
-    r = ctx.func(GEN, "Generator.__rmul__")
-    ctx.check("return self.__mul__(e)" in norm(r.node), "rmul", ctx.where(r), "__rmul__ does not delegate to __mul__")
+    _refcheck(ctx, GEN, "Generator.__rmul__", "gn_rmul", "rmul")
+    _refcheck(ctx, GEN, "Generator.__mul__", "gn_mul", "blinded-mul")
 
 
 # ------------------------------------------------------------------ C02.5
 def c02_5(ctx):
-    init = ctx.func(GEN, "Generator.__init__")
-    t = norm(init.node)
-    ctx.check("assert p % 4 == 3" in t and "self._mod_sqrt_power = (p + 1) // 4" in t, "sqrt-exponent", ctx.where(init), "the square-root exponent is not (p+1)/4 under the assertion p % 4 == 3")
+    _refcheck(ctx, GEN, "Generator.modular_sqrt", "gn_modular_sqrt", "modular-sqrt")
+    _refcheck(ctx, GEN, "Generator.points_for_x", "gn_points_for_x", "even-first")
+    _refcheck(ctx, GEN, "Generator.inverse", "gn_inverse", "scalar-inverse")
+    # results of the square root must not be shared between generators (curves)
+    c = ctx.p.cls(GEN, "Generator")
     ms = ctx.func(GEN, "Generator.modular_sqrt")
-    ctx.check("return pow(a, self._mod_sqrt_power, self._p)" in norm(ms.node), "modular-sqrt", ctx.where(ms), "modular_sqrt is not a^((p+1)/4) mod p")
-    f = ctx.func(GEN, "Generator.points_for_x")
-    x_ = f.params()[1]
-    d = df.single_defs(f.node)
-    al = d.get("alpha")
-    ctx.check(al is not None and norm(df.expand(al, {"p": d.get("p")} if "p" in d else {})) in ("(pow(%s, 3, self._p) + self._a * %s + self._b) %% self._p" % (x_, x_),), "curve-rhs", ctx.where(f), "alpha is `%s`, expected x^3 + a*x + b mod p" % (norm(al) if al is not None else None))
-    w = GuardWalker(gi.SymbolicAtomizer(ru.subject({"y0 & 1"}), df.const_int))
-    ex = w.run(f.node.body)
-    rets = {norm(e.value): gi.sat_set(e.cond, gi.IntSet.all(), gi.IntSet.empty()) for e in ex if e.kind == "return"}
-    ok = rets.get("(p0, p1)") == gi.iv(0, 0) and "(p1, p0)" in rets
-    t = norm(f.node)
-    ok = ok and "p0, p1 = [self.Point(%s, _) for _ in (y0, p - y0)]" % x_ in t
-    ctx.check(ok, "even-first", ctx.where(f), "points_for_x does not return (point with y0, point with p - y0) ordered even y first: %s" % {k: v.fmt() for k, v in rets.items()}, sample={"returns": {k: v.fmt() for k, v in rets.items()}})
-    rs = [e for e in ex if e.kind == "raise"]
-    ctx.check(len(rs) == 1 and "y0 == 0" in gi.f_opaques(rs[0].cond) and "ValueError" in norm(rs[0].value), "no-point-signalled", ctx.where(f), "points_for_x does not signal `no point` by ValueError")
+    for n in ast.walk(ms.node):
+        if isinstance(n, ast.Attribute) and norm(n.value) == "self" and n.attr in c.attrs and isinstance(c.attrs[n.attr], (ast.Dict, ast.List, ast.Set, ast.Call)):
+            ctx.bad("sqrt-state-shared:%s" % n.attr, ctx.where(ms, n), "modular_sqrt uses the class-level container self.%s: it is shared by every generator, so a root computed modulo one field is served for another" % n.attr)
+    ctx.ok("sqrt-state-scanned")
 
 
 # ------------------------------------------------------------------ C02.6
 def c02_6(ctx):
     n = ctx.func(POINT, "Point.__neg__")
-    w = GuardWalker(ru.opaque)
-    ex = w.run(n.node.body)
-    calc = [e for e in ex if e.kind == "return" and "self._curve.p() - self[1]" in norm(e.value)]
-    ok = len(calc) == 1 and any(o in ("self[1] is None", "self[0] is None", "self == self._curve.infinity()", "self == self._curve._infinity") for o in gi.f_opaques(calc[0].cond)) and \
-        not any(_sat(gi.f_and(calc[0].cond, ("op", o))) for o in gi.f_opaques(calc[0].cond) if "None" in o or "infinity" in o)
-    ctx.check(ok, "negate-infinity", ctx.where(n), "Point.__neg__ computes p - y without first testing for the point at infinity (y is None): -infinity and P - infinity raise TypeError", sample={"function": n.qualname})
-    ident = [e for e in ex if e.kind == "return" and norm(e.value) == "self"]
-    ctx.check(len(ident) == 1, "negate-infinity-is-infinity", ctx.where(n), "-infinity is not infinity")
-    ctx.check(any("self.__class__(self[0], self._curve.p() - self[1], self._curve)" == norm(e.value) for e in calc), "negation-formula", ctx.where(n), "-P is not (x, p - y) constructed through the checked constructor")
-    s = ctx.func(POINT, "Point.__sub__")
-    ctx.check("return self._curve.add(self, -other)" in norm(s.node), "subtraction", ctx.where(s), "P - Q is not P + (-Q)")
+    _refcheck(ctx, POINT, "Point.__neg__", "pt_neg", "negation")
+    w = sym.walk(ctx, n, int_names=INTS)
+    calc = [e for e in w.exits if e.kind == "return" and e.value is not None and "self._curve.p()" in norm(e.value)]
+    if not calc:
+        raise Undecided("Point.__neg__ has no exit computing p - y")
+    for e in calc:
+        ops = gi.f_opaques(e.cond) if e.cond not in (True, False) else []
+        guards = [o for o in ops if "is None" in o or "infinity" in o]
+        ctx.check(bool(guards) and any(sym.entails(e.cond, ("not", ("op", o))) for o in guards), "negate-infinity", ctx.where(n, e.node),
+                  "Point.__neg__ computes p - y without first testing for the point at infinity (y is None): -infinity and P - infinity raise TypeError", sample={"function": n.qualname, "guards": ops})
+    _refcheck(ctx, POINT, "Point.__sub__", "pt_sub", "subtraction")
+    _refcheck(ctx, POINT, "Point.__add__", "pt_add", "addition")
+    _refcheck(ctx, POINT, "Point.__mul__", "pt_mul", "scalar-multiplication")
+    # infinity is recognised before coordinates are unpacked in Curve.add
     a = ctx.func(CURVE, "Curve.add")
-    unp = [st for st in a.node.body if isinstance(st, ast.Assign) and isinstance(st.targets[0], ast.Tuple) and norm(st.value) in a.params()]
-    tests = [st for st in a.node.body if isinstance(st, ast.If) and "infinity" in norm(st.test)]
-    ok = len(unp) == 2 and len(tests) == 2 and max(t.lineno for t in tests) < min(u.lineno for u in unp)
-    ctx.check(ok, "add-infinity-before-unpack", ctx.where(a), "Curve.add unpacks coordinates before the infinity tests")
+    wa = sym.walk(ctx, a, int_names=INTS)
+    p0, p1 = a.params()[1:3]
+    for e in wa.exits:
+        if e.kind == "return" and e.value is not None and ("%s[" % p0 in norm(e.value) or "%s[" % p1 in norm(e.value)):
+            ops = gi.f_opaques(e.cond) if e.cond not in (True, False) else []
+            inf = [o for o in ops if "infinity" in o]
+            ctx.check(len(inf) >= 2 and all(sym.entails(e.cond, ("not", ("op", o))) for o in inf), "add-infinity-before-unpack", ctx.where(a, e.node), "Curve.add uses coordinates on a path where an operand may be infinity")
 
 
 OBLIGATIONS = [
-    Ob("C02.1", "every returned point is built through the on-curve-checking constructor (or is a parameter / infinity)", c02_1, floor=20, engines="CFG,CG,DF"),
-    Ob("C02.2", "Curve.add decides P = Q / P = -Q modulo p; slopes; identity cases", c02_2, floor=8, engines="GI,DF", breaks_if="points with unreduced coordinates (x, -y), (x, 2p - y)"),
-    Ob("C02.3", "all multiply implementations reduce the scalar unconditionally before the zero / infinity test", c02_3, floor=8, engines="SIB,CFG", breaks_if="scalars n, -n, 2n; blinded scalars >= 2^256"),
-    Ob("C02.4", "blinding offsets cancel (linear form of the fixed-base scalars)", c02_4, floor=4, engines="LIN"),
-    Ob("C02.5", "square root exponent (p+1)/4; points_for_x returns the even root first", c02_5, floor=5, engines="GI,DF"),
-    Ob("C02.6", "infinity is tested before any coordinate arithmetic (negation, subtraction, addition)", c02_6, floor=5, engines="NUL,CFG", breaks_if="-infinity, P - infinity"),
+    Ob("C02.1", "every returned point is built through the on-curve-checking constructor (or is a parameter / infinity)", c02_1, floor=20, engines="SYM,CG"),
+    Ob("C02.2", "Curve.add decides P = Q / P = -Q modulo p; slopes; identity cases", c02_2, floor=5, engines="SYM", breaks_if="points with unreduced coordinates (x, -y), (x, 2p - y)"),
+    Ob("C02.3", "all multiply implementations reduce the scalar unconditionally before the zero / infinity test", c02_3, floor=8, engines="SIB,SYM", breaks_if="scalars n, -n, 2n; blinded scalars >= 2^256"),
+    Ob("C02.4", "blinding offsets cancel (linear form of the fixed-base scalars)", c02_4, floor=4, engines="LIN,SYM"),
+    Ob("C02.5", "square root exponent (p+1)/4; points_for_x returns the even root first", c02_5, floor=4, engines="SYM"),
+    Ob("C02.6", "infinity is tested before any coordinate arithmetic (negation, subtraction, addition)", c02_6, floor=5, engines="SYM", breaks_if="-infinity, P - infinity"),
 ]
